@@ -111,6 +111,41 @@ def run(facts, tr, rep):
         rep.ob("C03.WRITERS", "%s|%s.%s" % (CRATE, cb.circuit_adt, fname), okw, where(ws[0][0], ws[0][1], ws[0][2]) if ws else "-",
                "timestamp %s is written only by the transition function" % fname if okw else
                "timestamp %s is written outside the transition function: %s" % (fname, bodies))
+    # every write of the state is accompanied by a write of the timestamp (the Open clock restarts on every transition)
+    if cb.transition is not None:
+        T = cb.transition
+        gT = graph(T)
+        sw_ = [(i, j) for (b_, i, j, s_) in cb.state_writes if b_ is T]
+        for fname in ts_fields:
+            tw = [i for (b_, i, j, s_) in field_writes(facts, cb.circuit_adt, fname) if b_ is T]
+            for (i, j) in sw_:
+                r = gT.reach([i], kinds=(N,), avoid_nodes=tw)
+                skip = [x for x in r if gT.term(x)["k"] == "return"] if i not in tw else []
+                rep.ob("C03.CLOCK", skey(T, "timestamp-with-state.%s" % fname), not skip and bool(tw), gT.where(i, j),
+                       "every state transition restarts the clock %s the Open wait is measured from" % fname if not skip and tw else
+                       "a state transition can complete without updating %s: after re-opening, the wait is measured from an older instant and "
+                       "new calls are admitted too early" % fname)
+    # leaving Open: only the admission function (after the wait), or a manual override
+    allowed_leave = {("try_acquire", "Open"), ("force_closed", "*"), ("reset", "*"), ("record_success", "HalfOpen")}
+    nleave = 0
+    for (b_, cs, tgt) in cb.transition_calls():
+        if tgt == "Open":
+            continue
+        nleave += 1
+        rep.saw(b_)
+        name = b_.def_.split("::")[-1]
+        sbb, ssw = cb.state_arms(b_)
+        arm = "*"
+        if ssw is not None:
+            for v in ("Closed", "Open", "HalfOpen"):
+                if cb.in_arm(b_, sbb, ssw, v, cs.bb):
+                    arm = v
+        ok = (name, arm) in allowed_leave
+        rep.ob("C03.LEAVE-OPEN", skey(b_, "transition->%s@%s" % (tgt, arm)), ok, cs.where(),
+               "transition to %s from %s[%s] cannot take the breaker out of Open early" % (tgt, name, arm) if ok else
+               "%s can move the breaker to %s from an arm that includes Open (%s): an outcome recorded while open (e.g. a call admitted "
+               "earlier that finishes late) ends the open period before wait_duration_in_open" % (name, tgt, arm))
+    rep.floor("C03.leave-open-sites", nleave, 4)
     # circuit type is not public
     rep.ob("C03.PRIVATE", "%s|%s" % (CRATE, cb.circuit_adt), cb.circuit["vis"] != "pub", "-",
            "circuit state type visibility is %s (every access goes through the service's mutex)" % cb.circuit["vis"])
